@@ -55,7 +55,7 @@ def _wk_value(cls, rng):
     return cls()
 
 
-def exercise(c: gen.Compiled, seed: int, n_calls: int):
+def exercise(c: gen.Compiled, seed: int, n_calls: int, pydantic: bool = False):
     """Run calls against every service of a compiled + imported schema. -> (failures [(clause, where, detail)], stats)"""
     import betterproto
     import grpclib
@@ -84,6 +84,11 @@ def exercise(c: gen.Compiled, seed: int, n_calls: int):
     def make_value(cls):
         full = full_by_cls.get(cls)
         if full is None:
+            if pydantic:
+                # what a user of a pydantic package has at hand is the class its MESSAGE fields use for this type
+                import importlib
+
+                cls = getattr(importlib.import_module("betterproto.lib.pydantic.google.protobuf"), cls.__name__, cls)
             return _wk_value(cls, rng)
         return adapter.build(cls, schema.msg(full), simple_tree(schema, full, rng, depth=1))
 
@@ -327,8 +332,8 @@ def _same(a, b):
 
 
 def targets(ctx):
-    def run(files, seed, n_calls):
-        c = gen.compile_files(files, tag="c11_")
+    def run(files, seed, n_calls, opts=()):
+        c = gen.compile_files(files, opts=tuple(opts), tag="c11_")
         try:
             if c.protoc_rejected:
                 return None, None
@@ -337,7 +342,7 @@ def targets(ctx):
             gen.import_all(c)
             if c.import_errors:
                 return [("generated_package_not_importable", e.split(":")[0], f"{p}: {e[:300]}") for p, e in c.import_errors.items()], {}
-            return exercise(c, seed, n_calls)
+            return exercise(c, seed, n_calls, pydantic="pydantic_dataclasses" in opts)
         finally:
             c.cleanup()
 
@@ -354,14 +359,24 @@ def targets(ctx):
     def fixed_cases():
         for s in range(3):
             yield {"fixed": "all_cardinalities_service", "seed": 100 + s + ctx.seed * 10}
+        # the same service generated with the other plugin options
+        yield {"fixed": "all_cardinalities_service", "seed": 200 + ctx.seed * 10, "opts": ["pydantic_dataclasses"]}
+        yield {"fixed": "all_cardinalities_service", "seed": 300 + ctx.seed * 10, "opts": ["typing.310"]}
 
     def fixed_ev(case):
-        found, stats = run(SERVICE_PROTO, case["seed"], 40 if not ctx.thorough else 200)
+        opts = case.get("opts", [])
+        found, stats = run(SERVICE_PROTO, case["seed"], 40 if not ctx.thorough else 200, opts)
+        if opts:
+            found = [(cl, "+".join(opts) + "|" + where, d) for cl, where, d in (found or [])]
+            stats.setdefault("labels", set()).add("variant:" + "+".join(opts))
         return pack(found, stats, "")
 
     def grammar_ev(case):
         files = render(case["ast"])
-        found, stats = run(files, case["seed"], 20 if not ctx.thorough else 50)
+        opts = case.get("opts", [])
+        found, stats = run(files, case["seed"], 20 if not ctx.thorough else 50, opts)
+        if opts and found:
+            found = [(cl, "+".join(opts) + "|" + where, d) for cl, where, d in found]
         if found is None:
             return Eval(discard="protoc rejects")
         if not stats.get("calls") and not found:
@@ -371,8 +386,9 @@ def targets(ctx):
     def has_service(ast):
         return any(f["services"] for f in ast["files"])
 
-    strat = st.tuples(schema_ast(max_packages=2).filter(has_service), st.integers(0, 2**20)).map(lambda t: {"ast": t[0], "seed": t[1]})
+    strat = st.tuples(schema_ast(max_packages=2).filter(has_service), st.integers(0, 2**20), st.sampled_from([[], [], ["pydantic_dataclasses"], ["typing.310"]])).map(
+        lambda t: {"ast": t[0], "seed": t[1], **({"opts": t[2]} if t[2] else {})})
     return [
-        Target("all_cardinalities_service", fixed_ev, cases=fixed_cases, exhaustive=False, shard_cases=True, quick=3, thorough=3),
+        Target("all_cardinalities_service", fixed_ev, cases=fixed_cases, exhaustive=False, shard_cases=True, quick=5, thorough=5),
         Target("grammar_services", grammar_ev, strategy=strat, quick=4, thorough=50, time_quick=120, time_thorough=1500, pin_budget=10, pin_sigs=1),
     ]
